@@ -576,6 +576,7 @@ struct Child {
     to: u64,
     last_progress: (u64, u64),
     last_change: Instant,
+    last_run_change: Instant,
     done: bool,
     /// binary of the user-like build variant, when this worker runs it
     alt: Option<String>,
@@ -663,7 +664,7 @@ pub fn check_main(prop: &str, tier: &str) -> i32 {
             .stdout(std::process::Stdio::null())
             .spawn();
         match proc {
-            Ok(p) => children.push(Child { proc: p, prefix, from, to, last_progress: (u64::MAX - 1, 0), last_change: Instant::now(), done: false, alt: alt_of_worker }),
+            Ok(p) => children.push(Child { proc: p, prefix, from, to, last_progress: (u64::MAX - 1, 0), last_change: Instant::now(), last_run_change: Instant::now(), done: false, alt: alt_of_worker }),
             Err(e) => {
                 eprintln!("harness error: cannot spawn worker: {}", e);
                 return 2;
@@ -681,6 +682,9 @@ pub fn check_main(prop: &str, tier: &str) -> i32 {
                 continue;
             }
             let st = read_progress(&c.prefix);
+            if st.0 != c.last_progress.0 {
+                c.last_run_change = Instant::now();
+            }
             if st != c.last_progress {
                 c.last_progress = st;
                 c.last_change = Instant::now();
@@ -701,7 +705,10 @@ pub fn check_main(prop: &str, tier: &str) -> i32 {
                     }
                 }
                 Ok(None) => {
-                    if c.last_change.elapsed() > hang_limit {
+                    // no heartbeat for `hang_limit`, or heartbeats but the same run for 8 x `hang_limit`
+                    // (a run that keeps the harness's own loops busy for ever, e.g. a marathon prefix
+                    // on a cache whose every operation has become slow)
+                    if c.last_change.elapsed() > hang_limit || c.last_run_change.elapsed() > 8 * hang_limit {
                         let idx = read_status(&c.prefix);
                         let _ = c.proc.kill();
                         let _ = c.proc.wait();
@@ -796,7 +803,10 @@ pub fn check_main(prop: &str, tier: &str) -> i32 {
 
     // dead workers: re-run the run index alone, write-ahead, un-minimised
     let mut cut_short = 0u64;
-    let memory_safety_prop = matches!(prop, "C06" | "C07" | "C16" | "C17");
+    // a run of the real code that crashes or never ends is a violation of the memory-safety
+    // properties and of C12 (an iterator that is consumed must reach `None`); for the others it is
+    // outside the oracle and only counted
+    let memory_safety_prop = matches!(prop, "C06" | "C07" | "C12" | "C16" | "C17");
     let mut crash_violations: Vec<VRec> = Vec::new();
     if dead.len() > 2 {
         println!("note: {} workers died or hung; the first two are investigated, the rest are counted as cut short", dead.len());
@@ -1058,6 +1068,10 @@ pub fn check_main(prop: &str, tier: &str) -> i32 {
         prop, tier, total.units, total.evaluations, total.steps, digests.len(), states.len(), wall, confirmed.len(), total.known_hits.values().sum::<u64>()
     );
     if confirmed.is_empty() {
+        if cut_short > 0 && total.units == 0 {
+            eprintln!("harness error: no unit could be completed ({} were cut short by a crash or hang outside this property's oracle): nothing was decided", cut_short);
+            return 2;
+        }
         0
     } else {
         1
